@@ -99,6 +99,32 @@ Theorem C14_abf_script_restart_before_repair_refuted :
 Proof. exact script_restart_refuted. Qed.
 Print Assumptions C14_abf_script_restart_before_repair_refuted.
 
+(* A round that does not complete: a peer is dead, absent or too slow and a blocking call inside replica_share() fails,
+   at any point of the round.  replica_share() is a transaction: every walker either completes the round or is exactly
+   as before the call (which walkers do depends on where the failure happens; the statement holds for EVERY assignment
+   of outcomes), and in both cases what the walker has sampled itself -- local + (global - snapshot) -- is untouched. *)
+Theorem C14_abf_exchange_transaction : forall (A : Type) (G : GrpOps A), GrpLaws G ->
+  forall t oc (ws : list (walker (A:=A))) k w w',
+  nth_error ws k = Some w -> nth_error (exchange_partial G t oc ws) k = Some w' ->
+  (w' = w \/ nth_error (exchange G t ws) k = Some w') /\ forall i, own_data G w' i = own_data G w i.
+Proof. exact @exchange_transaction. Qed.
+Print Assumptions C14_abf_exchange_transaction.
+
+(* a round in which every walker gives up leaves every grid of every walker as it was *)
+Theorem C14_abf_exchange_all_aborted : forall (A : Type) (G : GrpOps A) t (ws : list (walker (A:=A))),
+  exchange_partial G t (repeat Aborted (length ws)) ws = ws.
+Proof. exact @exchange_all_aborted. Qed.
+Print Assumptions C14_abf_exchange_all_aborted.
+
+(* replica_share() as it was: replica 0 returned from a failed receive with the deltas of the lower ranks added to its
+   global grid, its own delta added to the local grid and a delta in the snapshot grid (root_fail_old). *)
+Theorem C14_abf_peer_death_before_repair_refuted :
+  exists r w, nth_error (run Zgrp false peer_death_witness (init Zgrp 3)) 0 = Some w /\
+    root_fail_old Zgrp 1 (run Zgrp false peer_death_witness (init Zgrp 3)) = Some r /\
+    own_data Zgrp w 0 = 2 /\ own_data Zgrp r 0 <> 2.
+Proof. exact peer_death_old_refuted. Qed.
+Print Assumptions C14_abf_peer_death_before_repair_refuted.
+
 (* A restart through a state file of the repaired code (last_* saved) is the identity on the three grids, at any
    point of a run -- which is why C14_abf_union_once and C14_abf_interleavings_union_once quantify over traces with
    ERestart / ARestart ANYWHERE, not only at exchange boundaries. *)
